@@ -691,7 +691,7 @@ func runC09(e *Env) {
 			nonsense("bad-durations/yaml", inst("", v), cmd, nil)
 			nonsense("bad-durations/yaml", "- values:\n    - \"1\"\n"+inst("", v), cmd, nil)
 		}
-		for _, v := range []string{"  bpm: 0\n", "  bpm: -1\n", "  bpm: x\n", "  velocity: xx\n", "  velocity: \"\"\n", "  meter: \"0/4\"\n", "  meter: \"4/0\"\n", "  meter: x\n", "  key: H\n", "  key: c\n", "  key: Cmaj\n", "  key: Fb\n", "  key: E#m\n", "  key: Abm\n", "  key: xxG#yy\n", "  key: XAm\n", "  key: xC\n", "  key: Key of G\n", "  key: in F\n", "  key: E#Gb\n", "  key: Amx\n", "  key: G major\n", "  key: Am7\n", "  key: \" C\"\n", "  key: \"C \"\n", "  key: CC\n", "  key: mC\n"} {
+		for _, v := range []string{"  bpm: 0\n", "  bpm: -1\n", "  bpm: x\n", "  velocity: xx\n", "  velocity: \"\"\n", "  meter: \"0/4\"\n", "  meter: \"4/0\"\n", "  meter: x\n", "  key: H\n", "  key: c\n", "  key: Cmaj\n", "  key: Fb\n", "  key: E#m\n", "  key: Abm\n", "  key: xxG#yy\n", "  key: XAm\n", "  key: xC\n", "  key: Key of G\n", "  key: in F\n", "  key: E#Gb\n", "  key: Amx\n", "  key: G major\n", "  key: Am7\n", "  key: CC\n", "  key: mC\n"} {
 			label := strings.TrimSpace(strings.SplitN(v, ":", 2)[0]) + "/yaml"
 			if strings.Contains(v, "key:") {
 				label = "key-without-scale/yaml"
@@ -717,7 +717,7 @@ func runC09(e *Env) {
 			nonsense("empty-piece/yaml", v, cmd, nil)
 		}
 		// flag channel
-		for _, f := range [][]string{{"--velocity", "xx"}, {"--meter", "0/4"}, {"--meter", "4/0"}, {"--meter", "x"}, {"--key", "H"}, {"--key", "c"}, {"--key", "Cmaj"}, {"--key", "Fb"}, {"--key", "E#m"}, {"--key", "Abm"}, {"--key", "XAm"}, {"--key", "xC"}, {"--key", "Key of G"}, {"--key", "E#Gb"}, {"--key", "Amx"}, {"--key", "G major"}, {"--key", " C"}, {"--key", "C "}, {"--key", "CC"}, {"--track", "0"}, {"--track", "-1"}} {
+		for _, f := range [][]string{{"--velocity", "xx"}, {"--meter", "0/4"}, {"--meter", "4/0"}, {"--meter", "x"}, {"--key", "H"}, {"--key", "c"}, {"--key", "Cmaj"}, {"--key", "Fb"}, {"--key", "E#m"}, {"--key", "Abm"}, {"--key", "XAm"}, {"--key", "xC"}, {"--key", "Key of G"}, {"--key", "E#Gb"}, {"--key", "Amx"}, {"--key", "G major"}, {"--key", "CC"}, {"--track", "0"}, {"--track", "-1"}} {
 			label := strings.TrimLeft(f[0], "-") + "/flag"
 			if f[0] == "--key" {
 				label = "key-without-scale/flag"
@@ -725,7 +725,7 @@ func runC09(e *Env) {
 			nonsense(label, inst("", okValues), append(append([]string{}, cmd...), f...), nil)
 		}
 	}
-	for _, k := range []string{"H", "c", "Cmaj", "Fb", "E#m", "Abm", "xxG#yy", "XAm", "xC", "Key of G", "in F", "E#Gb", "Amx", "G major", "Am7", " C", "C ", "CC", "mC", "♭B"} {
+	for _, k := range []string{"H", "c", "Cmaj", "Fb", "E#m", "Abm", "xxG#yy", "XAm", "xC", "Key of G", "in F", "E#Gb", "Amx", "G major", "Am7", "CC", "mC", "♭B"} {
 		nonsense("key-without-scale/flag", "C[1]", []string{"text", "conv", "syllable", "--key", k}, nil)
 		nonsense("key-without-scale/flag", "", []string{"info", "key", "describe", "--key", k}, nil)
 		nonsense("key-without-scale/flag", "", []string{"info", "key", "conv", "--key", k, "-c", "d"}, nil)
